@@ -375,4 +375,14 @@ example : LeftCanon ([] ++ [exA]) ∧ RightCanon (exA :: [exB]) ∧
     by decide +kernel⟩
   decide +kernel
 
+/-- **C12.0** (basis dispatch of `measure_single_shot` / `measure`) the basis string is upper-cased and must then be
+    exactly `Z`, `X` or `Y`; anything else is rejected (`ValueError`), never mapped to a default basis -/
+theorem basis_dispatch (s : String) :
+    basisOf? s = (if s.toUpper = "Z" then some basisZ else if s.toUpper = "X" then some basisX
+      else if s.toUpper = "Y" then some basisY else none) := by
+  unfold basisOf?
+  split <;> simp_all
+
+example : (basisOf? "y").isSome = true ∧ (basisOf? "W").isSome = false := by decide +kernel
+
 end Yaqs.Born
